@@ -29,22 +29,43 @@ structure World where
   chain : List Block
   maxTip : Nat
   cover : Nat
+  /-- ghost: the range `[StartHeight, EndHeight]` of the historical dispatch the notifier handed
+      out for the current request set (taken from the model's own `Res.hist` answer) -/
+  range : Option (Nat × Nat) := none
+  /-- ghost: the largest height hint any client has supplied so far -/
+  lo : Nat := 0
+
+/-- the height range a completing rescan has looked at -/
+def rangeOf (res : Res) (old : Option (Nat × Nat)) : Option (Nat × Nat) :=
+  match res with
+  | .hist a b => some (a, b)
+  | _ => old
+
+/-- new `cover` after a rescan over `range` completed: the examined region grows downwards to the
+    rescan's start only if the rescanned range reaches the region examined so far -/
+def coverAfter (cover : Nat) (range : Option (Nat × Nat)) : Nat :=
+  match range with
+  | some (a, b) => if cover ≤ b + 1 then min cover a else cover
+  | none => cover
 
 inductive WOp where
   | register (reg n hint : Nat)
   | cancel (reg : Nat)
-  /-- the historical rescan that scanned from height `from_` reports `d` -/
-  | update (from_ : Nat) (d : Option ConfDetails)
+  /-- the historical rescan that was dispatched for `World.range` reports `d` (possibly late) -/
+  | update (d : Option ConfDetails)
   | tip (b : Block)
   | untip
 
 def wstep (w : World) : WOp → World
   | .register reg n hint =>
     { w with r := drainR (w.r.register w.cur w.limit reg n hint).1,
-             cover := if w.r.set then w.cover else w.cur + 1 }
+             cover := if w.r.set then w.cover else w.cur + 1,
+             range := rangeOf (w.r.register w.cur w.limit reg n hint).2
+                        (if w.r.set then w.range else none),
+             lo := max w.lo hint }
   | .cancel reg => { w with r := drainR (w.r.cancel reg) }
-  | .update from_ d =>
-    { w with r := drainR (w.r.update w.cur w.limit d).1, cover := min w.cover from_ }
+  | .update d =>
+    { w with r := drainR (w.r.update w.cur w.limit d).1, cover := coverAfter w.cover w.range }
   | .tip b =>
     { w with cur := w.cur + 1, depth := 0,
              r := drainR ((drainR (w.r.connect (w.cur + 1) w.limit b)).notify (w.cur + 1)),
@@ -69,10 +90,14 @@ def Valid (chain : List Block) (key : Nat) : Prop :=
 def Ok (w : World) : WOp → Prop
   | .register _ n _ => 1 ≤ n ∧ n ≤ w.limit
   | .cancel _ => True
-  | .update from_ d =>
+  | .update d =>
+    -- a rescan was dispatched, and its answer is the truth about the active chain now,
+    -- restricted to the dispatched range `[a, b]` (a late answer says nothing about blocks > b)
+    ∃ a b, w.range = some (a, b) ∧
     match d with
     | some d => OnChain w.chain w.r.key d ∧ ∃ n ∈ w.r.ntfns, n.live = true
-    | none => ∀ (h : Nat) (b : Block), from_ ≤ h → 1 ≤ h → w.chain[h - 1]? = some b → ¬ b.has w.r.key
+    | none => ∀ (h : Nat) (bl : Block), a ≤ h → h ≤ b → 1 ≤ h → w.chain[h - 1]? = some bl →
+        ¬ bl.has w.r.key
   | .tip b => b.has w.r.key → ∀ (j : Nat) (b' : Block), w.chain[j]? = some b' → ¬ b'.has w.r.key
   | .untip => 1 ≤ w.cur ∧ w.cur + w.limit > w.maxTip
 
@@ -588,12 +613,20 @@ theorem Pre0.cover_le {cur limit maxTip cover cover' : Nat} {chain : List Block}
   · exact hc hs hd hh b hge hlt h1 hb
   · exact h.cov hs hd hh b (by omega) h1 hb
 
-theorem update_pre {cur limit maxTip cover from_ : Nat} {chain : List Block} {r : ConfReq}
+theorem update_pre {cur limit maxTip cover a b : Nat} {chain : List Block} {r : ConfReq}
     {d : Option ConfDetails} (h : RI cur limit maxTip cover chain r)
     (hok : match d with
       | some d => OnChain chain r.key d ∧ ∃ n ∈ r.ntfns, n.live = true
-      | none => ∀ (h : Nat) (b : Block), from_ ≤ h → 1 ≤ h → chain[h - 1]? = some b → ¬ b.has r.key) :
-    Pre cur cur limit maxTip (min cover from_) chain (r.update cur limit d).1 := by
+      | none => ∀ (h : Nat) (bl : Block), a ≤ h → h ≤ b → 1 ≤ h → chain[h - 1]? = some bl →
+          ¬ bl.has r.key) :
+    Pre cur cur limit maxTip (coverAfter cover (some (a, b))) chain (r.update cur limit d).1 := by
+  have hcv : coverAfter cover (some (a, b)) ≤ cover ∧
+      ∀ hh, coverAfter cover (some (a, b)) ≤ hh → hh < cover → a ≤ hh ∧ hh ≤ b := by
+    simp only [coverAfter]
+    split
+    · exact ⟨by omega, fun hh h1 h2 => by omega⟩
+    · exact ⟨by omega, fun hh h1 h2 => by omega⟩
+  generalize coverAfter cover (some (a, b)) = cv at hcv ⊢
   obtain ⟨⟨h0, hcl⟩, hch⟩ := h
   unfold ConfReq.update
   split
@@ -618,8 +651,9 @@ theorem update_pre {cur limit maxTip cover from_ : Nat} {chain : List Block} {r 
         have h0' : Pre0 cur limit maxTip cover chain
             { r with rescan := .complete, hint := some cur } :=
           h0.congr rfl rfl rfl rfl rfl (fun x => by simp [hdn] at x) (fun c => c)
-        refine h0'.cover_le (fun _ _ hh b hge _ h1 hb => ?_)
-        exact hok hh b (by omega) h1 hb
+        refine h0'.cover_le (fun _ _ hh bl hge hlt h1 hb => ?_)
+        obtain ⟨x, y⟩ := hcv.2 hh hge hlt
+        exact hok hh bl x y h1 hb
       | some d =>
         obtain ⟨hon, m, hm, hml⟩ := hok
         have hle := hon.le
@@ -1179,7 +1213,10 @@ theorem wstep_inv {w : World} {op : WOp} (h : WInv w) (hok : Ok w op) : WInv (ws
     obtain ⟨h1, h2⟩ := hok
     exact drainR_RI (register_pre h h1 h2)
   | cancel reg => exact drainR_RI (cancel_pre h)
-  | update from_ d => exact drainR_RI (update_pre h hok)
+  | update d =>
+    obtain ⟨a, b, hr, hok⟩ := hok
+    simp only [wstep, hr]
+    exact drainR_RI (update_pre h hok)
   | tip b =>
     have hc := connect_pre (b := b) h hok
     obtain ⟨hp, hch⟩ := drainR_RI hc
